@@ -407,6 +407,8 @@ func init() {
 	}
 	intrinsics["verifPollContexts"] = func(in *Interp, fr *frame, a []Value) Value { in.ctxPollForeign(fr); return nil }
 	// verifWait yields to the other goroutines; false when none of them can run
+	intrinsics["verifAllocMark"] = func(in *Interp, fr *frame, a []Value) Value { return nil }
+	intrinsics["verifAllocCheck"] = func(in *Interp, fr *frame, a []Value) Value { return nil }
 	intrinsics["verifAwaitClose"] = func(in *Interp, fr *frame, a []Value) Value {
 		ch := a[0].(*ChanV)
 		dl := in.mustConst(a[1].(*Term), "await deadline")
